@@ -11,6 +11,8 @@ import Snmp.Lemmas.BerInt
 import Snmp.Lemmas.BerTree
 import Snmp.Lemmas.GlueLemmas
 import Snmp.Model.Agent
+import Snmp.Lemmas.ReencLemmas
+import Snmp.Lemmas.SpecRaw
 namespace Snmp.Props.C06
 open Snmp Snmp.Ber
 
@@ -286,5 +288,110 @@ example :
   refine ⟨?_, by rfl⟩
   simp [Enc.WF, Enc.WFL, Enc.bytesL, Enc.bytes, Spec.tlv, specLength, LenForm.ok, toBE, lookup, Gen.registry, clsName,
     natureName, pduShape, Enc.isIntPrim, Enc.isBindList, Enc.isPair, Gen.noDefaultCtor]
+
+/-! ### re-encoding of decoded structures (`Model/Reenc.lean`, `Lemmas/ReencLemmas.lean`) -/
+
+open Snmp.V3Glue in
+/-- **Security-parameter block.**  `bytes(USMSecurityParameters.decode(block))` for a block whose
+    seven TLVs are in any admissible length forms is the block of the same six values in the forms
+    `encode_length` writes, and decoding that yields the same six values again. -/
+theorem C06_reencode_usm (f : LenForm) (F : ParamForms) (p : UsmParams.Params) (boots time : Bytes)
+    (hF : F.ok p boots time) (hf : f.ok (rawBytes (paramItems F p boots time)).length)
+    (hb : p.boots = intDecode true boots) (ht : p.time = intDecode true time) (hs : Reenc.SmallParams p)
+    (fuel : Nat) (hfuel : 5 ≤ fuel) :
+    Reenc.reencUsm (Spec.tlv f 48 (rawBytes (paramItems F p boots time))) fuel
+        = .ok (encodeUsmParams p.engineId p.boots p.time p.user p.auth p.priv) ∧
+    UsmParams.ofBytes (encodeUsmParams p.engineId p.boots p.time p.user p.auth p.priv) fuel = .ok p :=
+  Reenc.reencUsm_wire f F p boots time hF hf hb ht hs fuel hfuel
+
+/-- **Scoped PDU.**  `bytes(ScopedPDU.decode(data))` for a scoped PDU in any admissible length forms
+    (anything may follow it): the same three TLVs — contextEngineID and contextName as OCTET STRINGs,
+    the PDU under its own identifier octet with the content octets received — each under the length
+    octets `encode_length` writes; the strict reader takes that apart into exactly these three. -/
+theorem C06_reencode_scoped (f fe fn : LenForm) (e nm : Bytes) (pdu : RawTlv) (trailing : Bytes) (fuel : Nat)
+    (hf : f.ok (rawBytes (Reenc.scopedItems fe fn e nm pdu)).length) (hfe : fe.ok e.length) (hfn : fn.ok nm.length)
+    (hpdu : pdu.ok) (hpt : tagOf (lookup pdu.t).name = pdu.t) (hpk : (lookup pdu.t).kind ≠ "null") (hpc : pdu.c ≠ [])
+    (hfuel : 2 ≤ fuel) (hs : Spec.Small e.length ∧ Spec.Small nm.length ∧ Spec.Small pdu.c.length ∧
+      Spec.Small (rawBytes [Reenc.norm 4 e, Reenc.norm 4 nm, Reenc.norm pdu.t pdu.c]).length) :
+    Reenc.reencScoped (Spec.tlv f 48 (rawBytes (Reenc.scopedItems fe fn e nm pdu)) ++ trailing) fuel =
+      .ok (Ber.tlv 48 (rawBytes [Reenc.norm 4 e, Reenc.norm 4 nm, Reenc.norm pdu.t pdu.c])) ∧
+    Spec.readTLV (Ber.tlv 48 (rawBytes [Reenc.norm 4 e, Reenc.norm 4 nm, Reenc.norm pdu.t pdu.c]))
+      = some (48, rawBytes [Reenc.norm 4 e, Reenc.norm 4 nm, Reenc.norm pdu.t pdu.c], []) ∧
+    Spec.readSeq (rawBytes [Reenc.norm 4 e, Reenc.norm 4 nm, Reenc.norm pdu.t pdu.c]) = some [(4, e), (4, nm), (pdu.t, pdu.c)] := by
+  refine ⟨Reenc.reencScoped_wire f fe fn e nm pdu trailing fuel hf hfe hfn hpdu hpt hpk hpc hfuel, ?_, ?_⟩
+  · have := Spec.readTLV_tlv 48 (rawBytes [Reenc.norm 4 e, Reenc.norm 4 nm, Reenc.norm pdu.t pdu.c]) [] hs.2.2.2
+    simpa using this
+  · have := Spec.readSeq_raw [Reenc.norm 4 e, Reenc.norm 4 nm, Reenc.norm pdu.t pdu.c] (by
+      intro x hx
+      simp only [List.mem_cons, List.not_mem_nil, or_false] at hx
+      rcases hx with rfl | rfl | rfl
+      · exact Reenc.formOf_ok _ hs.1
+      · exact Reenc.formOf_ok _ hs.2.1
+      · exact Reenc.formOf_ok _ hs.2.2.1)
+    simpa [Reenc.norm] using this
+
+open Snmp.V3Glue in
+/-- **SNMPv3 message, encrypted payload.**  `bytes(Message.decode(data))` for every well-formed
+    message with the priv flag set — any admissible length form at each TLV of the wrapper, anything
+    behind the message — is the message (`v3wire`) with the same msgVersion content, the header
+    fields re-written from their values, the security-parameter octets as received and the same
+    ciphertext, every level under the length octets `encode_length` writes. -/
+theorem C06_reencode_message_encrypted (G : MsgForms) (F : ParamForms) (h : HdrC) (p : UsmParams.Params) (boots time : Bytes)
+    (fpl : LenForm) (cipher trailing : Bytes) (fuel : Nat)
+    (hok : G.ok F h p boots time (tStr fpl cipher)) (hpriv : fromBE h.flg / 2 % 2 = 1) (hfuel : 5 ≤ fuel) :
+    Reenc.reencMsg (v3wire G F h p boots time (tStr fpl cipher) trailing) fuel =
+      .ok (v3wire (Reenc.normMsgForms G F h p boots time (Reenc.norm 4 cipher)) F (Reenc.normHdr h) p boots time
+            (Reenc.norm 4 cipher) []) := by
+  rw [← Reenc.assemble_eq_wire, Reenc.norm_bytes]
+  exact Reenc.reencMsg_wire G F h p boots time _ trailing fuel _ hok
+    (Reenc.payloadBytes_encrypted G F h p boots time fpl cipher trailing fuel _ hpriv) hfuel
+
+open Snmp.V3Glue in
+/-- **SNMPv3 message, plain payload**: as above; msgData becomes a fresh SEQUENCE around
+    contextEngineID, contextName and the PDU with the content octets received. -/
+theorem C06_reencode_message_plain (G : MsgForms) (F : ParamForms) (h : HdrC) (p : UsmParams.Params) (boots time : Bytes)
+    (fpl fe fn : LenForm) (e nm : Bytes) (pdu : RawTlv) (trailing : Bytes) (fuel : Nat)
+    (hok : G.ok F h p boots time (tSeq fpl (rawBytes (Reenc.scopedItems fe fn e nm pdu))))
+    (hplain : fromBE h.flg / 2 % 2 = 0) (hfe : fe.ok e.length) (hfn : fn.ok nm.length)
+    (hpdu : pdu.ok) (hpt : tagOf (lookup pdu.t).name = pdu.t) (hpk : (lookup pdu.t).kind ≠ "null") (hpc : pdu.c ≠ [])
+    (hfuel : 5 ≤ fuel) :
+    Reenc.reencMsg (v3wire G F h p boots time (tSeq fpl (rawBytes (Reenc.scopedItems fe fn e nm pdu))) trailing) fuel =
+      .ok (v3wire (Reenc.normMsgForms G F h p boots time (Reenc.norm 48 (rawBytes [Reenc.norm 4 e, Reenc.norm 4 nm, Reenc.norm pdu.t pdu.c])))
+            F (Reenc.normHdr h) p boots time (Reenc.norm 48 (rawBytes [Reenc.norm 4 e, Reenc.norm 4 nm, Reenc.norm pdu.t pdu.c])) []) := by
+  rw [← Reenc.assemble_eq_wire, Reenc.norm_bytes]
+  exact Reenc.reencMsg_wire G F h p boots time _ trailing fuel _ hok
+    (Reenc.payloadBytes_plain G F h p boots time fpl fe fn e nm pdu trailing fuel _ hplain hfe hfn hpdu hpt hpk hpc (by omega)) hfuel
+
+open Snmp.V3Glue in
+/-- **… of the same content.**  The re-encoding is itself a well-formed message, and taking it apart
+    (`Message.decode` + `USMSecurityParameters.decode`) gives msgID, msgMaxSize, msgSecurityModel and
+    the six USM parameters with the values of the message received, the flags reduced to their three
+    defined bits (`flagsNorm f = f` for every `f < 8`), and msgData as `payloadOf` reads it. -/
+theorem C06_reencoded_fields (G : MsgForms) (F : ParamForms) (h : HdrC) (p : UsmParams.Params) (boots time : Bytes)
+    (pl' : RawTlv) (fuel : Nat) (dt : Nat) (dc : Bytes)
+    (hs : Reenc.SmallMsg G F h p boots time pl') (hsi : G.fsi.ok (rawBytes (paramItems F p boots time)).length) (hpl : pl'.ok)
+    (hF : F.ok p boots time) (hb : p.boots = intDecode true boots) (ht : p.time = intDecode true time)
+    (hpay : payloadOf (v3wire (Reenc.normMsgForms G F h p boots time pl') F (Reenc.normHdr h) p boots time pl' [])
+      (Reenc.flagsNorm (fromBE h.flg)) (plNode (Reenc.normMsgForms G F h p boots time pl') F (Reenc.normHdr h) p boots time pl') fuel = .ok (dt, dc))
+    (hfuel : 5 ≤ fuel) :
+    v3OfBytes (v3wire (Reenc.normMsgForms G F h p boots time pl') F (Reenc.normHdr h) p boots time pl' []) fuel =
+      .ok ⟨intDecode true h.mid, intDecode true h.mms, Reenc.flagsNorm (fromBE h.flg), intDecode true h.mdl,
+           p.engineId, p.boots, p.time, p.user, p.auth, p.priv, dt, dc⟩ ∧
+    (fromBE h.flg < 8 → Reenc.flagsNorm (fromBE h.flg) = fromBE h.flg) := by
+  obtain ⟨v1, v2, v3, v4, _⟩ := Reenc.normHdr_values h
+  refine ⟨?_, Reenc.flagsNorm_small _⟩
+  have := v3OfBytes_wire (Reenc.normMsgForms G F h p boots time pl') F (Reenc.normHdr h) p boots time pl' [] fuel dt dc
+    (Reenc.normForms_ok G F h p boots time pl' hs hsi hpl) hF hb ht (by rw [v4]; exact hpay) hfuel
+  rw [this, v1, v2, v3, v4]
+
+/- non-vacuity: a scoped PDU with a GetResponse, contextEngineID in a 2-octet long form -/
+example : let pdu : RawTlv := ⟨.minimal, 162, [2, 1, 1, 2, 1, 0, 2, 1, 0, 48, 0]⟩
+    pdu.ok ∧ tagOf (lookup pdu.t).name = pdu.t ∧ (lookup pdu.t).kind ≠ "null" ∧ pdu.c ≠ [] ∧ LenForm.ok (.long 2) 3 := by
+  refine ⟨?_, by decide, by decide, by simp, by simp [LenForm.ok]⟩
+  simp [RawTlv.ok, LenForm.ok, lookup, Gen.registry, clsName, natureName, Gen.noDefaultCtor]
+
+/- non-vacuity: the re-encoding function on a concrete 127-octet-level message runs to a result -/
+example : Reenc.reencScoped [48, 129, 11, 4, 0, 4, 0, 162, 129, 5, 2, 1, 1, 2, 0] 20 =
+    .ok [48, 11, 4, 0, 4, 0, 162, 5, 2, 1, 1, 2, 0] := by rfl
 
 end Snmp.Props.C06
